@@ -384,14 +384,26 @@ fn be16(a: u8, b: u8) -> u16 {
 
 /// decode half, client->relay (server decoder): every byte string of total length L (first
 /// byte < 64, i.e. a one-byte varint frame type) decodes exactly as the wire layout says.
-fn decode_c2r<const T: u8, const L: usize>() {
+///
+/// ZK = true is the natively replayable twin: the key bytes are fixed to the all-zero key
+/// (a valid point natively, so a counterexample replays without the decompress oracle) and the
+/// oracle bookkeeping assertions are skipped.  All `kani::any()` calls of the harness body come
+/// before the code under test so that a native replay consumes the same values in the same order.
+fn decode_c2r<const T: u8, const L: usize, const ZK: bool>() {
     // frame type byte fixed to T (one harness per frame type and length)
     let mut buf: [u8; L] = kani::any();
+    let i: usize = kani::any();
     if L > 0 {
         buf[0] = T;
     }
+    if ZK && L >= 33 {
+        let mut j = 1;
+        while j < 33 {
+            buf[j] = 0;
+            j += 1;
+        }
+    }
     let r = ClientToRelayMsg::from_bytes(fixed_bytes(&buf), &cache());
-    let i: usize = kani::any();
     if L == 0 {
         assert!(r.is_err());
     } else {
@@ -406,7 +418,7 @@ fn decode_c2r<const T: u8, const L: usize>() {
                     k.copy_from_slice(&buf[1..33]);
                     match &r {
                         Ok(ClientToRelayMsg::Datagrams { dst_endpoint_id, datagrams }) => {
-                            assert!(vs::oracle_answer(&k) == Some(true));
+                            assert!(ZK || vs::oracle_answer(&k) == Some(true));
                             assert!(*dst_endpoint_id.as_bytes() == k);
                             assert!(ecn_bits(datagrams.ecn) == ecn_bits(noq_proto::EcnCodepoint::from_bits(buf[33])));
                             if batch {
@@ -420,7 +432,7 @@ fn decode_c2r<const T: u8, const L: usize>() {
                             }
                         }
                         Ok(_) => assert!(false, "wrong variant"),
-                        Err(_) => assert!(vs::oracle_answer(&k) == Some(false)),
+                        Err(_) => assert!(!ZK && vs::oracle_answer(&k) == Some(false)),
                     }
                 }
             }
@@ -443,19 +455,26 @@ fn decode_c2r<const T: u8, const L: usize>() {
 }
 
 /// decode half, relay->client (client decoder), both versions.
-fn decode_r2c<const T: u8, const L: usize>() {
+fn decode_r2c<const T: u8, const L: usize, const ZK: bool>() {
     // frame type byte fixed to T (one harness per frame type keeps the symbolic execution to
     // one decoder arm)
     let mut buf: [u8; L] = kani::any();
+    let i: usize = kani::any();
     if L > 0 {
         if T < 64 {
             buf[0] = T;
         }
     }
+    if ZK && L >= 33 {
+        let mut j = 1;
+        while j < 33 {
+            buf[j] = 0;
+            j += 1;
+        }
+    }
     let v2: bool = kani::any();
     let version = if v2 { ProtocolVersion::V2 } else { ProtocolVersion::V1 };
     let r = RelayToClientMsg::from_bytes(fixed_bytes(&buf), &cache(), version);
-    let i: usize = kani::any();
     if L == 0 {
         assert!(r.is_err());
     } else {
@@ -470,7 +489,7 @@ fn decode_r2c<const T: u8, const L: usize>() {
                     k.copy_from_slice(&buf[1..33]);
                     match &r {
                         Ok(RelayToClientMsg::Datagrams { remote_endpoint_id, datagrams }) => {
-                            assert!(vs::oracle_answer(&k) == Some(true));
+                            assert!(ZK || vs::oracle_answer(&k) == Some(true));
                             assert!(*remote_endpoint_id.as_bytes() == k);
                             assert!(ecn_bits(datagrams.ecn) == ecn_bits(noq_proto::EcnCodepoint::from_bits(buf[33])));
                             if batch {
@@ -484,7 +503,7 @@ fn decode_r2c<const T: u8, const L: usize>() {
                             }
                         }
                         Ok(_) => assert!(false, "wrong variant"),
-                        Err(_) => assert!(vs::oracle_answer(&k) == Some(false)),
+                        Err(_) => assert!(!ZK && vs::oracle_answer(&k) == Some(false)),
                     }
                 }
             }
@@ -496,10 +515,10 @@ fn decode_r2c<const T: u8, const L: usize>() {
                     k.copy_from_slice(&buf[1..33]);
                     match &r {
                         Ok(RelayToClientMsg::EndpointGone(id)) => {
-                            assert!(vs::oracle_answer(&k) == Some(true) && *id.as_bytes() == k)
+                            assert!((ZK || vs::oracle_answer(&k) == Some(true)) && *id.as_bytes() == k)
                         }
                         Ok(_) => assert!(false, "wrong variant"),
-                        Err(_) => assert!(vs::oracle_answer(&k) == Some(false)),
+                        Err(_) => assert!(!ZK && vs::oracle_answer(&k) == Some(false)),
                     }
                 }
             }
@@ -561,7 +580,7 @@ macro_rules! dec_c2r_harness {
         #[kani::stub(vs::curve25519_dalek::edwards::CompressedEdwardsY::decompress, vs::decompress_oracle)]
         #[kani::stub(n0_error::backtrace_enabled, vstubs::backtrace_disabled)]
         fn $name() {
-            decode_c2r::<$t, $l>();
+            decode_c2r::<$t, $l, false>();
         }
     };
 }
@@ -591,7 +610,7 @@ macro_rules! dec_r2c_harness {
         #[kani::stub(vs::curve25519_dalek::edwards::CompressedEdwardsY::decompress, vs::decompress_oracle)]
         #[kani::stub(n0_error::backtrace_enabled, vstubs::backtrace_disabled)]
         fn $name() {
-            decode_r2c::<$t, $l>();
+            decode_r2c::<$t, $l, false>();
         }
     };
 }
@@ -619,6 +638,26 @@ dec_r2c_harness!(c10_decode_r2c_t4_len41, 4, 41);
 dec_r2c_harness!(c10_decode_r2c_t5_len41, 5, 41);
 dec_r2c_harness!(c10_decode_r2c_t14_len9, 14, 9);
 dec_r2c_harness!(c10_decode_r2c_t63_len9, 63, 9);
+
+macro_rules! dec_zk_harness {
+    ($name:ident, $f:ident, $t:expr, $l:expr) => {
+        #[kani::proof]
+        #[kani::unwind(45)]
+        #[kani::stub(vs::curve25519_dalek::edwards::CompressedEdwardsY::decompress, vs::decompress_all_valid)]
+        #[kani::stub(n0_error::backtrace_enabled, vstubs::backtrace_disabled)]
+        fn $name() {
+            $f::<$t, $l, true>();
+        }
+    };
+}
+// natively replayable twins of the datagram-frame decoders (zero key)
+dec_zk_harness!(c10_decode_c2r_t4_len41_zk, decode_c2r, 4, 41);
+dec_zk_harness!(c10_decode_c2r_t5_len36_zk, decode_c2r, 5, 36);
+dec_zk_harness!(c10_decode_c2r_t5_len41_zk, decode_c2r, 5, 41);
+dec_zk_harness!(c10_decode_r2c_t6_len41_zk, decode_r2c, 6, 41);
+dec_zk_harness!(c10_decode_r2c_t7_len36_zk, decode_r2c, 7, 36);
+dec_zk_harness!(c10_decode_r2c_t7_len41_zk, decode_r2c, 7, 41);
+dec_zk_harness!(c10_decode_r2c_t8_len33_zk, decode_r2c, 8, 33);
 
 /// C10 decode half: Health is V1-only and carries its text unchanged; invalid UTF-8 is an error.
 #[kani::proof]
